@@ -34,8 +34,9 @@ p-values of the t-tests are those of the reported variances, the NaN-aware    C0
 all p-values in [0,1], pairwise symmetric, unit diagonal                      C06/p-range (orc_p_range): t-test, bootstrap,
                                                                                 ranksum through Result.test_* and the
                                                                                 wrappers all_tests / pair_tests / ...
-bootstrap tests (docstring of bootstrap_pair_tests: two-sided, ties left      C06/bootstrap-formulas (orc_bootstrap_formulas)
-  out, 1/N added); zero / ceiling tests bracketed by the sample counts          incl. per-sample (2, N) ceilings
+bootstrap tests (docstring of bootstrap_pair_tests: two-sided, ties left      C06/bootstrap-formulas (orc_bootstrap_formulas) in the
+  out, 1/N added; a pair tied in ALL samples is treated like the diagonal:      domains C06/bootstrap-pairwise and
+  p = 1); zero / ceiling tests within [count/N, (count+1)/N] and [0,1]          C06/bootstrap-zero-ceiling (incl. (2, N) ceilings)
 rank-sum tests = Wilcoxon signed-rank tests of the NaN-aware per-subject      C06/ranksum (orc_ranksum): scipy.stats.wilcoxon
   evaluations                                                                   on differences + exact enumeration of all
                                                                                 2^n sign patterns (n <= 9, no ties)
@@ -49,7 +50,9 @@ permuting the models permutes every output (variances, means, SEM, CI, all    C0
 Known / found on the unchanged tree (own input_class each, see C06_findings.md)
   bootstrap-nc-2xN:nc_tests, bootstrap-nc-2xN:all_tests   ValueError for a per-sample (2, N) noise ceiling, N != 2
   bootstrap-pair-all-tied                                  0/0 -> NaN p-value
-  bootstrap-zero-all-nonpositive, bootstrap-nc-all-above   p = (N+1)/N > 1
+  bootstrap-zero-all-nonpositive:zero_tests / :all_tests   p = (N+1)/N > 1
+  bootstrap-nc-all-above:nc_tests / :all_tests             p = (N+1)/N > 1
+  bootstrap-pairwise,nan-samples                           NaN samples counted as 'not smaller': p depends on model order
   nan-single-model                                         get_means drops samples by model 0 only
 
 NOT covered by this tier
@@ -606,9 +609,11 @@ def _spec_boot_pair(E2):
         less = sum(1 for s in range(N) if E2[s, i] < E2[s, j])
         more = sum(1 for s in range(N) if E2[s, i] > E2[s, j])
         if less + more == 0:
-            q = float('nan')    # no information: any value in [0,1] would do, NaN is not one
-        else:
-            q = min(less, more) / (less + more)
+            # the two models are indistinguishable in every sample: same situation as a model against itself, for
+            # which the statement demands 1 (unit diagonal)
+            pp[i, j] = pp[j, i] = 1.0
+            continue
+        q = min(less, more) / (less + more)
         pp[i, j] = pp[j, i] = (N - 1) / N * 2 * q + 1 / N
     return pp
 
@@ -1041,11 +1046,14 @@ def tier_c(run, thorough):
     bd.done()
     bds.append(bd)
 
-    # ---- bootstrap formulas, incl. the known failing classes -------------------------------------------------------------
-    bd = Bounded(run, 'C06/bootstrap-formulas', 'C06/bootstrap_pair_tests/oracle/two-sided-tie-corrected-proportion',
-                 'NaN-free 2..5-D arrays, 2..4 models, 5..40 samples, continuous / partially tied; pairwise formula, zero and ceiling '
-                 'tests bracketed by the counts; ceilings (2,) and per-sample (2,N) incl. N=2; saturated cases (all samples tied / '
-                 '<= 0 / above the ceiling); Result and wrappers; %d seeds' % (4 if thorough else 2), function='bootstrap_pair_tests')
+    # ---- bootstrap tests, incl. the known failing classes ---------------------------------------------------------------
+    bdp = Bounded(run, 'C06/bootstrap-pairwise', 'C06/bootstrap_pair_tests/oracle/two-sided-tie-corrected-proportion',
+                  'NaN-free 2..5-D arrays, 2..4 models, 5..40 samples, continuous / partially tied / one pair tied in all samples; '
+                  'Result.test_pairwise and pair_tests; %d seeds' % (4 if thorough else 2), function='bootstrap_pair_tests')
+    bdz = Bounded(run, 'C06/bootstrap-zero-ceiling', 'C06/bootstrap-zero-ceiling-tests/oracle/p-bracketed-by-counts',
+                  'NaN-free 2-D arrays, 2..4 models, 5..40 samples: zero and ceiling tests within [count/N, (count+1)/N] and [0,1], '
+                  'all_tests = the three single tests; ceilings (2,) and per-sample (2,N) incl. N=2; saturated cases (all samples <= 0 / '
+                  'above the ceiling); Result and wrappers; %d seeds' % (4 if thorough else 2), function='zero_tests')
     i = 0
     for seed in range(4 if thorough else 2):
         for nd in (2, 3, 4, 5):
@@ -1054,35 +1062,40 @@ def tier_c(run, thorough):
                     for route in ('Result', 'wrapper'):
                         i += 1
                         base = dict(seed=3000 * seed + i, M=M, N=(5, 10, 17, 40)[i % 4], tail=list(TAILS[nd]), ties=ties, route=route)
-                        bd.check(orc_bootstrap_formulas, dict(base, which='pairwise'),
-                                 'pairwise,partial-ties' if ties else 'pairwise,no-ties', function='bootstrap_pair_tests')
+                        bdp.check(orc_bootstrap_formulas, dict(base, which='pairwise'),
+                                  'partial-ties' if ties else 'no-ties', function='bootstrap_pair_tests')
                         if nd == 2:
-                            bd.check(orc_bootstrap_formulas, dict(base, which='zero'), 'zero', function='zero_tests')
-                            bd.check(orc_bootstrap_formulas, dict(base, which='noise', ncshape='1d'), 'noise,ceiling-1d', function='nc_tests')
-                            bd.check(orc_bootstrap_formulas, dict(base, which='all', ncshape='1d'), 'all,ceiling-1d', function='all_tests')
+                            bdz.check(orc_bootstrap_formulas, dict(base, which='zero'), 'zero', function='zero_tests')
+                            bdz.check(orc_bootstrap_formulas, dict(base, which='noise', ncshape='1d'), 'noise,ceiling-1d', function='nc_tests')
+                            bdz.check(orc_bootstrap_formulas, dict(base, which='all', ncshape='1d'), 'all,ceiling-1d', function='all_tests')
     for seed in range(2):
         for route in ('Result', 'wrapper'):
             base = dict(seed=3900 + seed, M=3, N=(9, 12)[seed], tail=[], route=route)
-            bd.check(orc_bootstrap_formulas, dict(base, N=2, which='noise', ncshape='2d'), 'noise,ceiling-2x2', function='nc_tests')
-            bd.check(orc_bootstrap_formulas, dict(base, N=2, which='all', ncshape='2d'), 'all,ceiling-2x2', function='all_tests')
-            bd.check(orc_bootstrap_formulas, dict(base, which='noise', ncshape='2d'), 'bootstrap-nc-2xN:nc_tests', function='nc_tests')
-            bd.check(orc_bootstrap_formulas, dict(base, which='all', ncshape='2d'), 'bootstrap-nc-2xN:all_tests', function='all_tests')
-            bd.check(orc_bootstrap_formulas, dict(base, which='pairwise', special='pair-all-tied'), 'bootstrap-pair-all-tied',
-                     function='bootstrap_pair_tests')
-            bd.check(orc_bootstrap_formulas, dict(base, which='zero', special='zero-all-nonpositive'),
-                     'bootstrap-zero-all-nonpositive', function='zero_tests')
-            bd.check(orc_bootstrap_formulas, dict(base, which='noise', ncshape='1d', special='nc-all-above'),
-                     'bootstrap-nc-all-above', function='nc_tests')
-    bd.done()
-    bds.append(bd)
+            bdp.check(orc_bootstrap_formulas, dict(base, which='pairwise', special='pair-all-tied'), 'bootstrap-pair-all-tied',
+                      function='bootstrap_pair_tests')
+            bdz.check(orc_bootstrap_formulas, dict(base, N=2, which='noise', ncshape='2d'), 'noise,ceiling-2x2', function='nc_tests')
+            bdz.check(orc_bootstrap_formulas, dict(base, N=2, which='all', ncshape='2d'), 'all,ceiling-2x2', function='all_tests')
+            bdz.check(orc_bootstrap_formulas, dict(base, which='noise', ncshape='2d'), 'bootstrap-nc-2xN:nc_tests', function='nc_tests')
+            bdz.check(orc_bootstrap_formulas, dict(base, which='all', ncshape='2d'), 'bootstrap-nc-2xN:all_tests', function='all_tests')
+            bdz.check(orc_bootstrap_formulas, dict(base, which='zero', special='zero-all-nonpositive'),
+                      'bootstrap-zero-all-nonpositive:zero_tests', function='zero_tests')
+            bdz.check(orc_bootstrap_formulas, dict(base, which='all', ncshape='1d', special='zero-all-nonpositive'),
+                      'bootstrap-zero-all-nonpositive:all_tests', function='all_tests')
+            bdz.check(orc_bootstrap_formulas, dict(base, which='noise', ncshape='1d', special='nc-all-above'),
+                      'bootstrap-nc-all-above:nc_tests', function='nc_tests')
+            bdz.check(orc_bootstrap_formulas, dict(base, which='all', ncshape='1d', special='nc-all-above'),
+                      'bootstrap-nc-all-above:all_tests', function='all_tests')
+    for bd in (bdp, bdz):
+        bd.done()
+        bds.append(bd)
 
     # ---- ranksum --------------------------------------------------------------------------------------------------------
     bd = Bounded(run, 'C06/ranksum', 'C06/ranksum_pair_test/oracle/wilcoxon-signed-rank',
                  '3-D arrays: 1..12 samples x 1..4 models x 5..%d subjects, no NaN / NaN samples, continuous / tied; scipy wilcoxon on the '
-                 'differences, exact enumeration for <= 9 untied subjects; %d seeds' % (14 if thorough else 12, 4 if thorough else 1),
+                 'differences, exact enumeration for <= 9 untied subjects; %d seeds' % (14 if thorough else 12, 2 if thorough else 1),
                  function='ranksum_pair_test')
     i = 0
-    for seed in range(4 if thorough else 1):
+    for seed in range(2 if thorough else 1):
         for M in (1, 2, 3, 4):
             for S in ((5, 6, 7, 9, 12, 14) if thorough else (5, 7, 9, 12)):
                 for nan in ('none', 'samples'):
@@ -1173,10 +1186,10 @@ def tier_c(run, thorough):
                  'EVERY permutation of 2..4 models (%s): variances, means, SEM, t and bootstrap CI, pairwise / zero / ceiling / test_all '
                  'p-values for t-test, bootstrap (continuous and partially tied samples, 2..5-D) and ranksum (3-D); vector / matrix / '
                  '3-stack covariances with / without ceiling rows; NaN samples; %d seeds'
-                 % ('5 models: 24 seeded permutations' if thorough else 'exhaustive', 3 if thorough else 1),
+                 % ('exhaustive; plus 5 models (not ranksum) under 24 seeded permutations' if thorough else 'exhaustive', 2 if thorough else 1),
                  function='Result')
     i = 0
-    for seed in range(3 if thorough else 1):
+    for seed in range(2 if thorough else 1):
         for nd in (2, 3, 4, 5):
             for M in ((2, 3, 4, 5) if thorough else (2, 3, 4)):
                 for ties in (False, True):
@@ -1202,7 +1215,7 @@ def tier_c(run, thorough):
                                      'bootstrap-pairwise,nan-samples', function='bootstrap_pair_tests')
                             bd.check(orc_equivariance, dict(base, tests=['bootstrap'], ncshape='1d', select='rest'),
                                      'bootstrap-zero-ceiling,nan-samples', function='zero_tests')
-                        if nd == 3:
+                        if nd == 3 and M <= 4:
                             bd.check(orc_equivariance, dict(base, tests=['ranksum'], ncshape=('1d', '2d')[i % 2]),
                                      'ranksum,ties' if ties else 'ranksum', function='ranksum_pair_test')
     bd.done()
